@@ -824,8 +824,12 @@ class Project(MessageHandler):
         # Total calendar days (with 50% buffer for weekends/non-working days)
         total_days_needed: int = int((work_days_needed + gap_days) * 1.5) + 7
 
-        # Calculate minimum required end date
-        min_end_date = self.attributes["start"] + timedelta(days=total_days_needed)
+        # Calculate minimum required end date; work that does not fit the calendar at all (beyond
+        # year 9999) cannot be given a horizon: the tasks are then reported as not schedulable
+        try:
+            min_end_date = self.attributes["start"] + timedelta(days=total_days_needed)
+        except OverflowError:
+            return
 
         # Extend project end if needed
         if min_end_date > self.attributes["end"]:
